@@ -60,6 +60,34 @@ def select_small_curves(tier):
     return picks
 
 
+def sqrt_mod(a, p):
+    """a square root of a modulo the odd prime p, or None (Tonelli-Shanks)"""
+    a %= p
+    if a == 0:
+        return 0
+    if pow(a, (p - 1) // 2, p) != 1:
+        return None
+    if p % 4 == 3:
+        return pow(a, (p + 1) // 4, p)
+    q, s_ = p - 1, 0
+    while q % 2 == 0:
+        q //= 2
+        s_ += 1
+    z = 2
+    while pow(z, (p - 1) // 2, p) != p - 1:
+        z += 1
+    m, c, t, r = s_, pow(z, q, p), pow(a, q, p), pow(a, (q + 1) // 2, p)
+    while t != 1:
+        i, t2 = 0, t
+        while t2 != 1:
+            t2 = t2 * t2 % p
+            i += 1
+        b = pow(c, 1 << (m - i - 1), p)
+        m, c = i, b * b % p
+        t, r = t * c % p, r * b % p
+    return r
+
+
 def plan(tier, seed):
     jobs = []
     small = select_small_curves(tier)
@@ -79,7 +107,7 @@ def mandatory_bins(tier):
     b = ["small_curve", "pair_add", "pair_add_with_infinity", "pair_add_equal_operands", "pair_add_inverse_operands", "rep_unreduced_negative_y", "rep_scaled", "rep_same_z", "rep_different_z",
          "double", "negate", "scalar_mul_all_0_to_2n_plus_1", "scalar_mul_precompute_path", "scalar_mul_without_order", "mul_add", "affine_point_arithmetic", "mixed_jacobi_affine", "equality_across_representations",
          "anomalous_curve_n_eq_p", "long_lived_point_objects_reused_across_operations", "curve_a_zero", "curve_a_minus_3", "curve_p_1_mod_4",
-         "shipped_curve", "kG_vs_openssl", "kQ_vs_openssl", "mul_add_vs_openssl", "negation_scale_combination", "scalar_n", "scalar_n_plus_1", "scalar_2^k", "scalar_2^k-1", "ecdh_vs_openssl", "ecdh_edge_scalar", "ecdh_keys_loaded_as_bytes", "ecdh_keys_loaded_as_der", "ecdh_keys_loaded_as_pem", "ecdh_keys_loaded_as_object", "ecdh_generated_private_key",
+         "shipped_curve", "kG_vs_openssl", "kQ_vs_openssl", "mul_add_vs_openssl", "negation_scale_combination", "scalar_n", "scalar_n_plus_1", "scalar_2^k", "scalar_2^k-1", "ecdh_vs_openssl", "ecdh_edge_scalar", "ecdh_keys_loaded_as_bytes", "ecdh_keys_loaded_as_der", "ecdh_keys_loaded_as_pem", "ecdh_keys_loaded_as_object", "ecdh_generated_private_key", "ecdh_object_reused_with_keys_replaced_one_at_a_time", "ecdh_shared_point_with_x_zero",
          "invalid_off_curve", "invalid_coordinate_ge_p", "invalid_congruent_coordinate_ge_p", "invalid_zero_zero", "invalid_other_curve_point", "invalid_point_object_of_sibling_curve", "invalid_point_outside_prime_order_subgroup", "invalid_infinity", "repository_suite_under_group_law_monitor"]
     return b
 
@@ -425,6 +453,53 @@ def run_shipped(ns, ctx, spec):
             ctx.violation("ecdh_secrets_of_the_two_parties_differ", {"curve": cv.name}, rp2)
         elif s1 != want:
             ctx.violation("ecdh_secret_differs_from_openssl", {"curve": cv.name, "got": s1, "expected": want}, rp2)
+    # ---- ECDH: one long-lived object whose keys are replaced one at a time (a server object re-keyed; a peer changing) -----
+    try:
+        da, db_, dc = (rng.randrange(1, n) for _ in range(3))
+        ska, skb, skc = (K.SigningKey.from_secret_exponent(x_, curve=cv, hashfunc=hashlib.sha256) for x_ in (da, db_, dc))
+        e = ns.ecdh.ECDH(curve=cv)
+        e.load_private_key(ska)
+        e.load_received_public_key(skb.verifying_key)
+        hist = [("A", "B", e.generate_sharedsecret_bytes(), ossl.ecdh(name, da, ossl.point_mul(name, db_)))]
+        e.load_private_key_bytes(skc.to_string())  # own key replaced, peer kept
+        hist.append(("C", "B", e.generate_sharedsecret_bytes(), ossl.ecdh(name, dc, ossl.point_mul(name, db_))))
+        e.load_received_public_key_bytes(ska.verifying_key.to_string())  # peer replaced, own key kept
+        hist.append(("C", "A", e.generate_sharedsecret_bytes(), ossl.ecdh(name, dc, ossl.point_mul(name, da))))
+        e.load_private_key_der(skb.to_der())
+        hist.append(("B", "A", e.generate_sharedsecret_bytes(), ossl.ecdh(name, db_, ossl.point_mul(name, da))))
+        hist.append(("B", "A", e.generate_sharedsecret_bytes(), ossl.ecdh(name, db_, ossl.point_mul(name, da))))
+        ctx.ev(len(hist))
+        ctx.bin("ecdh_object_reused_with_keys_replaced_one_at_a_time")
+        ctx.mon("ECDH.generate_sharedsecret_bytes", len(hist))
+        for step, (own, peer, got, want) in enumerate(hist):
+            if got != want:
+                ctx.violation("ecdh_secret_of_reused_object_differs_from_openssl", {"curve": cv.name, "step": step, "own": own, "peer": peer}, dict(rp, da=hex(da), db=hex(db_), dc=hex(dc)))
+                break
+    except Exception as e_:
+        ctx.violation("ecdh_raises", {"curve": cv.name, "exc": fmt_exc(e_), "route": "reused_object"}, rp)
+    # ---- ECDH: shared point with affine x == 0 (a valid group element on curves where b is a square): the secret is all-zero
+    # bytes, as OpenSSL returns it - not 'infinity'
+    L_ = (p.bit_length() + 7) // 8
+    y0 = sqrt_mod(int(cv.curve.b()) % p, p)
+    if y0 is not None:
+        try:
+            P0 = (0, y0)
+            ossl.point_mul(name, None, P0, 1)  # on the curve (raises otherwise)
+            d0 = rng.randrange(2, n)
+            Q0 = ossl.point_mul(name, None, P0, pow(d0, -1, n))
+            e0 = ns.ecdh.ECDH(curve=cv, private_key=K.SigningKey.from_secret_exponent(d0, curve=cv, hashfunc=hashlib.sha256))
+            e0.load_received_public_key_bytes(Q0[0].to_bytes(L_, "big") + Q0[1].to_bytes(L_, "big"))
+            ctx.ev()
+            ctx.bin("ecdh_shared_point_with_x_zero")
+            want0 = ossl.ecdh(name, d0, Q0)
+            got0 = e0.generate_sharedsecret_bytes()
+            ctx.mon("ECDH.generate_sharedsecret_bytes")
+            if got0 != want0:
+                ctx.violation("ecdh_secret_differs_from_openssl:shared_x_is_zero", {"curve": cv.name, "got": got0, "expected": want0}, dict(rp, d0=hex(d0)))
+        except ossl.OsslError:
+            pass
+        except Exception as e_:
+            ctx.violation("ecdh_raises", {"curve": cv.name, "exc": fmt_exc(e_), "route": "shared_x_is_zero"}, dict(rp, d0=hex(d0)))
     # ---- invalid public points -------------------------------------------------------------------------------------
     L = (p.bit_length() + 7) // 8
     others = [c for c in weierstrass_curves(ns) if c.name != cv.name and (int(c.curve.p()).bit_length() + 7) // 8 == L]
